@@ -16,6 +16,7 @@ import logging
 import os
 import random as _random
 import shutil
+import sys
 
 from esrally import actor as rally_actor
 from esrally import config, log, metrics, paths, racecontrol, rally, reporter
@@ -47,6 +48,9 @@ def track_json(case):
         for t in el["tasks"]:
             if t.get("composite") is not None:
                 params = {"name": "op-" + t["name"], "operation-type": "composite", "requests": t["composite"]}
+            elif t.get("real_op") is not None:
+                # one of rally's own operation types with its registered runner (most administrative ones sit behind runner.Retry)
+                params = dict(t["real_op"], name="op-" + t["name"])
             else:
                 params = {"name": "op-" + t["name"], "operation-type": t.get("op_type", "verif-op"), "param-source": "verif-source", "requests": t["requests"], "task": t["name"]}
                 if t.get("finite") is not None:
@@ -261,6 +265,8 @@ def run_race(case, scratch, extra_args=(), faults=None, instrument=None):
                 k.drain(300.0)
     finally:
         # nothing of this race may survive into the next race of the same process (see VThread.reap)
+        hook = sys.unraisablehook
+        sys.unraisablehook = lambda *a: None  # coroutines closed during teardown complain ("coroutine ignored GeneratorExit"): not of interest
         try:
             with contextlib.redirect_stdout(out), contextlib.redirect_stderr(out):
                 for vt in list(k.threads):
@@ -268,6 +274,8 @@ def run_race(case, scratch, extra_args=(), faults=None, instrument=None):
                 gc.collect()
         except BaseException:  # noqa - teardown only
             pass
+        finally:
+            sys.unraisablehook = hook
         for u in reversed(undo):
             try:
                 u()
